@@ -266,6 +266,12 @@ def gen_conc(rng: random.Random, cfgs: list[str]) -> dict:
                       "mode": rng.choice(["scope", "scope", "native", "native-in-group"])})  # fmt: skip
 
     ttl = rng.choice([None, None, None, 3])
+    if ttl is not None:
+        # virtual seconds slept before the call: entries expire between (and callers that
+        # slept equally long arrive in the same loop iteration at an expired entry)
+        for c in calls:
+            c["sleep"] = rng.choice([0, 0, 0, 4, 4, 8])
+
     clears = [[rng.randint(0, 9), rng.choice(["before", "after"])]
               for _ in range(rng.choice([0, 0, 0, 1, 2]))]  # fmt: skip
     return {"stratum": "conc", "cfg": rng.choice(cfgs), "maxsize": maxsize, "nkeys": nkeys,
@@ -391,6 +397,9 @@ def execute_conc(case: dict) -> dict:
         async def body(a: Actor) -> None:
             c = case["calls"][a.name]
             k = c["key"]
+            if c.get("sleep"):
+                await anyio.sleep(c["sleep"])
+
             for _ in range(c["delay"]):
                 await checkpoint()
 
@@ -407,6 +416,11 @@ def execute_conc(case: dict) -> dict:
 
             t0 = anyio.current_time()
             c0 = h.cyc()
+            if case["ttl"] is not None and any(
+                r["status"] == "ok" and t0 >= r["end_time"] + case["ttl"] for r in execs.get(k, [])
+            ):
+                window("call_on_expired_entry" + ("_with_same_key_call_in_flight" if others_same_key else ""))
+
             shared[a] = bool(others_same_key)
             for b in others_same_key:
                 shared[b] = True
@@ -718,6 +732,30 @@ def execute(case: dict) -> dict:
     return execute_conc(case)
 
 
+def ttl_family():  # noqa: ANN201
+    """a finished entry expires (virtual clock), then 2-4 callers arrive at it in the same
+    loop iteration or a few checkpoints apart, with always_checkpoint on and off: one
+    recomputation at a time, the others reuse it"""
+    for cfg in ("stock", "eager"):
+        for ac in (False, True):
+            for ms in (None, 2):
+                for n in (2, 3, 4):
+                    for stagger in (0, 1):
+                        for other in (False, True):
+                            calls = [{"key": 0, "delay": 0, "work": 1, "fail": False, "cancel": None,
+                                      "mode": "scope", "sleep": 0}]  # fmt: skip
+                            for i in range(n):
+                                calls.append({"key": 0, "delay": i * stagger, "work": 2, "fail": False,
+                                              "cancel": None, "mode": "scope", "sleep": 4})  # fmt: skip
+
+                            if other:
+                                calls.append({"key": 1, "delay": 0, "work": 1, "fail": False,
+                                              "cancel": None, "mode": "scope", "sleep": 4})  # fmt: skip
+
+                            yield {"stratum": "conc", "cfg": cfg, "maxsize": ms, "nkeys": 2, "ttl": 3,
+                                   "always_checkpoint": ac, "calls": calls, "clears": []}  # fmt: skip
+
+
 def f3_witness_cases():  # noqa: ANN201
     """the two shapes in which F3 was found, so that the known finding is re-observed (or
     seen to be gone) on every run"""
@@ -735,6 +773,7 @@ def all_cases(tier: str, seed: int):  # noqa: ANN201
     cfgs = ["stock", "eager"]
     yield from f3_witness_cases()
     yield from s4_family()
+    yield from ttl_family()
     rng4 = random.Random(seed * 4001 + 4)
     for _ in range(8000 if tier == "thorough" else 800):
         yield gen_s4(rng4, cfgs)
@@ -791,6 +830,7 @@ def replay(case: dict, col) -> None:  # noqa: ANN001
 
 def finish(col, tier: str) -> None:  # noqa: ANN001
     for k in ("stratum:S1", "stratum:S2", "stratum:S3", "stratum:S4", "window:same_key_overlap",
-              "window:different_key_overlap", "window:s4_waiter_served_by_inflight_call"):  # fmt: skip
+              "window:different_key_overlap", "window:s4_waiter_served_by_inflight_call",
+              "window:call_on_expired_entry_with_same_key_call_in_flight"):  # fmt: skip
         if not col.counters.get(k):
             col.inconclusive_because(f"stratum/window never reached: {k}")
